@@ -11,7 +11,7 @@ use cascette_formats::encoding::{CKeyEntryData, EKeyEntryData, EncodingBuilder, 
 use cascette_formats::root::{
     ContentFlags, LocaleFlags, RootBuilder, RootFile, RootHeader, RootHeaderInfo, RootMagic, RootVersion, calculate_name_hash,
 };
-use cascette_formats::tvfs::{TvfsBuilder, TvfsFile};
+use cascette_formats::tvfs::{TvfsBuilder, TvfsError, TvfsFile};
 use std::collections::{BTreeMap, BTreeSet};
 use std::io::Cursor;
 use std::panic::AssertUnwindSafe;
@@ -76,6 +76,9 @@ struct RootS {
     by_hash: BTreeMap<(u64, u32, u64), Vec<[u8; 16]>>,
     by_path: BTreeMap<(Vec<u8>, u32, u64), Vec<[u8; 16]>>,
     ambiguous: bool,
+    /// every record carries a name hash iff its block's format does (else the writer's rule applies:
+    /// an unnamed record of a named block is stored with name hash 0, a name given to a record of a
+    /// NO_NAME_HASH block is not stored) — tallied; the reference maps follow the writer's rule
     consistent_names: bool,
     /// a content-flags value wider than the version's field was inserted (the writer truncates it)
     wide: bool,
@@ -84,9 +87,12 @@ struct RootS {
 #[derive(Default)]
 struct Tvfs {
     flags: u32,
-    files: Vec<(Vec<u8>, [u8; 9], u32, u32, Option<[u8; 16]>)>,
+    /// encoding-spec strings handed to `add_est_spec` (used by the builder only with ENCODING_SPEC)
+    specs: Vec<Vec<u8>>,
+    /// (path, ekey, encoded size, content size, content key, est index of `add_file_with_est`)
+    files: Vec<(Vec<u8>, [u8; 9], u32, u32, Option<[u8; 16]>, Option<u32>)>,
     parsed: Option<TvfsFile>,
-    reference: BTreeMap<Vec<u8>, ([u8; 9], u32, Option<[u8; 16]>)>,
+    reference: BTreeMap<Vec<u8>, ([u8; 9], u32, Option<[u8; 16]>, Option<u32>)>,
     long_name: bool,
     dup: bool,
 }
@@ -248,8 +254,9 @@ impl Impl {
                 return Some("ok".into());
             }
             ["begin", "tvfs", fl] => {
+                // every combination of INCLUDE_CKEY (1), ENCODING_SPEC (2), PATCH_SUPPORT (4)
                 let flags: u32 = fl.parse().ok()?;
-                if flags > 1 {
+                if flags > 7 {
                     return None;
                 }
                 self.mode = Mode::Tvfs(Tvfs { flags, ..Default::default() });
@@ -655,17 +662,20 @@ impl Impl {
                     let block_named = st.ver == RootVersion::V1 || cf & ContentFlags::NO_NAME_HASH == 0;
                     if block_named != nh.is_some() {
                         st.consistent_names = false;
+                        s.tally(if block_named { "root.unnamed-record-in-named-block" } else { "root.name-dropped-by-no-name-hash-block" });
                     }
                     if cf >= (if st.ver == RootVersion::V4 { 1u64 << 40 } else { 1u64 << 32 }) {
                         st.wide = true;
                     }
                     st.recs.push((fd, ck, nh, loc, cf));
                     st.by_id.entry((fd, loc, cf)).or_default().push(ck);
-                    if let Some(h) = nh {
-                        st.by_hash.entry((h, loc, cf)).or_default().push(ck);
-                    }
-                    if let Some(p) = path {
-                        st.by_path.entry((norm_path(&p), loc, cf)).or_default().push(ck);
+                    // name index: a block with name hashes stores one per record (0 for a record
+                    // without a name); a block without stores none
+                    if block_named {
+                        st.by_hash.entry((nh.unwrap_or(0), loc, cf)).or_default().push(ck);
+                        if let Some(p) = path {
+                            st.by_path.entry((norm_path(&p), loc, cf)).or_default().push(ck);
+                        }
                     }
                     Some("ok".into())
                 }
@@ -716,10 +726,14 @@ impl Impl {
                             got.push((l, c, fd, *r.content_key.as_bytes(), r.name_hash));
                         }
                     }
-                    let mut want: Vec<(u32, u64, u32, [u8; 16], Option<u64>)> = st.recs.iter().map(|(fd, ck, nh, loc, cf)| (*loc, *cf, *fd, *ck, *nh)).collect();
+                    let ver = st.ver;
+                    let mut want: Vec<(u32, u64, u32, [u8; 16], Option<u64>)> = st.recs.iter().map(|(fd, ck, nh, loc, cf)| {
+                        let block_named = ver == RootVersion::V1 || cf & ContentFlags::NO_NAME_HASH == 0;
+                        (*loc, *cf, *fd, *ck, if block_named { Some(nh.unwrap_or(0)) } else { None })
+                    }).collect();
                     got.sort();
                     want.sort();
-                    if st.consistent_names && (!ordered || got != want) {
+                    if !st.wide && (!ordered || got != want) {
                         let sig = if st.ambiguous { SIG_V2 } else { "root-blocks-as-inserted" };
                         fail(s, sig, format!("parsed blocks ({} records, ordered={ordered}) are not the {} inserted records in builder order", got.len(), want.len()));
                     }
@@ -734,7 +748,7 @@ impl Impl {
                     let (ids, names) = p.lookup_stats();
                     let want_ids = st.by_id.keys().map(|k| k.0).collect::<BTreeSet<_>>().len();
                     let want_names = st.by_hash.keys().map(|k| k.0).collect::<BTreeSet<_>>().len();
-                    if ids != want_ids || (st.consistent_names && names != want_names) {
+                    if ids != want_ids || names != want_names {
                         let sig = if st.ambiguous { SIG_V2 } else { "root-lookup-stats" };
                         fail(s, sig, format!("lookup tables hold {ids} FileDataIDs / {names} name hashes, inserted {want_ids} / {want_names}"));
                     }
@@ -760,8 +774,7 @@ impl Impl {
                         ents.map(|v| v.iter().map(|e| (e.block_index, e.locale_flags.value(), e.content_flags.value, *e.content_key.as_bytes())).collect()).unwrap_or_default();
                     let mut got: Vec<(u32, u64, [u8; 16])> = list.iter().map(|e| (e.1, e.2, e.3)).collect();
                     got.sort();
-                    let names_ok = *op == "ids" || st.consistent_names;
-                    if !st.wide && names_ok && (got != want || ents.is_some_and(|v| v.is_empty())) {
+                    if !st.wide && (got != want || ents.is_some_and(|v| v.is_empty())) {
                         let sig = if st.ambiguous { SIG_V2 } else { "root-entries" };
                         let show = |v: &[(u32, u64, [u8; 16])]| v.iter().map(|e| format!("{:#x}:{:#x}:{}", e.0, e.1, hex(&e.2))).collect::<Vec<_>>().join(" ");
                         fail(s, sig, format!("{op} {a}: lookup tables hold [{}], inserted (locale:content:ckey) [{}]", show(&got), show(&want)));
@@ -803,12 +816,11 @@ impl Impl {
                     };
                     let g = got.map(|k| *k.as_bytes());
                     // exactly the inserted value when one inserted record matches, nothing when none does
-                    let by_name = *op != "id";
                     let ok = match (want.len(), g) {
                         (0, None) => true,
-                        (0, Some(_)) => !st.consistent_names && by_name,
+                        (0, Some(_)) => false,
                         (_, Some(k)) => want.contains(&k),
-                        (_, None) => by_name && !st.consistent_names,
+                        (_, None) => false,
                     };
                     if !ok {
                         let sig = if st.ambiguous { SIG_V2 } else { "root-lookup" };
@@ -823,27 +835,49 @@ impl Impl {
                 _ => None,
             },
             Mode::Tvfs(st) => match toks {
-                ["t", p, ek, es, cs, ck] => {
+                ["s", spec] => {
+                    // an encoding-spec string for the EST (non-empty ASCII without NUL)
+                    let spec = unhex(spec)?;
+                    if built || spec.is_empty() || !spec.is_ascii() || spec.contains(&0) {
+                        return None;
+                    }
+                    st.specs.push(spec);
+                    Some("ok".into())
+                }
+                [op @ ("t" | "te"), p, ek, es, cs, ck, rest @ ..] => {
                     let (p, ek, es, cs) = (unhex(p)?, unhex(ek)?, es.parse::<u32>().ok()?, cs.parse::<u32>().ok()?);
                     let ek: [u8; 9] = ek.try_into().ok()?;
                     let ck = if *ck == "-" { None } else { Some(k16(ck)?) };
+                    // `te`: add_file_with_est with an EST index
+                    let est = match (*op, rest) {
+                        ("t", []) => None,
+                        ("te", [e]) => Some(e.parse::<u32>().ok()?),
+                        _ => return None,
+                    };
                     if built || std::str::from_utf8(&p).is_err() {
                         return None;
                     }
                     if p.split(|b| *b == b'/').any(|c| c.len() >= 255) {
                         st.long_name = true;
                     }
-                    if st.reference.insert(p.clone(), (ek, es, ck)).is_some() {
+                    if st.reference.insert(p.clone(), (ek, es, ck, est)).is_some() {
                         st.dup = true;
                     }
-                    st.files.push((p, ek, es, cs, ck));
+                    st.files.push((p, ek, es, cs, ck, est));
                     Some("ok".into())
                 }
                 ["build"] => {
                     self.built = true;
                     let mut b = TvfsBuilder::with_flags(st.flags);
-                    for (p, ek, es, cs, ck) in &st.files {
-                        b.add_file(String::from_utf8(p.clone()).ok()?, *ek, *es, *cs, *ck);
+                    for sp in &st.specs {
+                        b.add_est_spec(String::from_utf8(sp.clone()).ok()?);
+                    }
+                    for (p, ek, es, cs, ck, est) in &st.files {
+                        let path = String::from_utf8(p.clone()).ok()?;
+                        match est {
+                            Some(e) => b.add_file_with_est(path, *ek, *es, *cs, *ck, *e),
+                            None => b.add_file(path, *ek, *es, *cs, *ck),
+                        }
                     }
                     let bytes = match catch(AssertUnwindSafe(|| b.build())) {
                         Ok(Ok(x)) => x,
@@ -852,22 +886,37 @@ impl Impl {
                     };
                     match catch(AssertUnwindSafe(|| TvfsFile::parse(&bytes))) {
                         Ok(Ok(p)) => {
-                            let r = format!("ok files={}", p.path_table.files.len());
-                            if !st.dup && p.path_table.files.len() != st.files.len() {
+                            let r = format!("ok files={} vfs={} cft={}", p.path_table.files.len(), p.vfs_table.entries.len(), p.container_table.entries.len());
+                            if !st.dup && (p.path_table.files.len() != st.files.len() || p.vfs_table.entries.len() != st.files.len() || p.container_table.entries.len() != st.files.len()) {
                                 let sig = if st.long_name { SIG_TVFS255 } else { "tvfs-parse" };
-                                fail(s, sig, format!("{} files inserted, {} parsed", st.files.len(), p.path_table.files.len()));
+                                fail(s, sig, format!("{} files inserted (flags {}), parsed {} paths / {} VFS entries / {} container entries", st.files.len(), st.flags, p.path_table.files.len(), p.vfs_table.entries.len(), p.container_table.entries.len()));
                             }
                             st.parsed = Some(p);
                             Some(r)
                         }
                         Ok(Err(e)) => {
                             let sig = if st.long_name { SIG_TVFS255 } else { "tvfs-parse" };
-                            fail(s, sig, format!("built TVFS manifest ({} files) does not parse: {e}", st.files.len()));
-                            let m = e.to_string();
-                            Some(if m.contains("truncated") { "err:path-trunc".into() } else if m.contains("node") { "err:path-node".into() } else { format!("err:other:{}", m.split(' ').next().unwrap_or("")) })
+                            fail(s, sig, format!("built TVFS manifest ({} files, flags {}) does not parse: {e}", st.files.len(), st.flags));
+                            Some(match &e {
+                                TvfsError::PathTableTruncated(_) => "err:path-trunc".into(),
+                                TvfsError::InvalidPathNode(..) => "err:path-node".into(),
+                                TvfsError::VfsTableTruncated(_) => "err:vfs-trunc".into(),
+                                TvfsError::CftTableTruncated(_) => "err:cft-trunc".into(),
+                                _ => format!("err:other:{}", e.to_string().split(' ').next().unwrap_or("")),
+                            })
                         }
                         Err(_) => Some("panic".into()),
                     }
+                }
+                ["specs"] => {
+                    let Some(p) = &st.parsed else { return if built { Some("err:nofile".into()) } else { None } };
+                    // the parsed EST: exactly the inserted spec strings iff ENCODING_SPEC is set
+                    let got: Vec<Vec<u8>> = p.est_table.as_ref().map(|t| t.specs.iter().map(|x| x.as_bytes().to_vec()).collect()).unwrap_or_default();
+                    let want: Vec<Vec<u8>> = if st.flags & 2 != 0 { st.specs.clone() } else { vec![] };
+                    if got != want {
+                        fail(s, "tvfs-est", format!("flags {}: parsed EST holds {} specs, inserted {}", st.flags, got.len(), want.len()));
+                    }
+                    Some(join_or(got.iter().map(|x| hex(x)).collect(), ","))
                 }
                 ["p", arg] => {
                     let Some(p) = &st.parsed else { return if built { Some("err:nofile".into()) } else { None } };
@@ -877,18 +926,40 @@ impl Impl {
                         Ok(g) => g,
                         Err(_) => return Some("panic".into()),
                     };
-                    let with_ck = st.flags & 1 != 0;
+                    let (with_ck, with_est, with_patch) = (st.flags & 1 != 0, st.flags & 2 != 0, st.flags & 4 != 0);
                     if !st.dup {
-                        let want = st.reference.get(&path).map(|(ek, es, ck)| {
-                            (ek.to_vec(), *es, if with_ck { Some(ck.map(|c| c[..9].to_vec()).unwrap_or(vec![0u8; 9])) } else { None })
+                        // exactly the inserted record, in the fields the builder's flags keep: 9-byte
+                        // EKey, encoded size, first 9 content-key bytes (zeros when the file has none),
+                        // the EST index (0 when added without one), an unset patch offset
+                        let est_len: usize = if with_est { st.specs.iter().map(|x| x.len() + 1).sum() } else { 0 };
+                        let est_mask: u64 = if est_len > 0xFF_FFFF { u32::MAX as u64 } else if est_len > 0xFFFF { 0xFF_FFFF } else if est_len > 0xFF { 0xFFFF } else { 0xFF };
+                        let mut narrow = false;
+                        let want = st.reference.get(&path).map(|(ek, es, ck, est)| {
+                            let e = est.unwrap_or(0);
+                            if with_est && (e as u64) > est_mask { narrow = true; }
+                            (ek.to_vec(), *es, if with_ck { Some(ck.map(|c| c[..9].to_vec()).unwrap_or(vec![0u8; 9])) } else { None }, if with_est { Some(e) } else { None }, if with_patch { Some(0u32) } else { None })
                         });
-                        let g = got.as_ref().map(|e| (e.ekey.clone(), e.encoded_size, e.content_key.clone()));
-                        if g != want {
+                        let g = got.as_ref().map(|e| (e.ekey.clone(), e.encoded_size, e.content_key.clone(), e.est_index, e.patch_offset));
+                        if narrow {
+                            s.tally("tvfs.est-index-wider-than-field");
+                        } else if g != want {
                             let sig = if st.long_name { SIG_TVFS255 } else { "tvfs-lookup" };
-                            fail(s, sig, format!("path {ps:?}: resolve_path returned {g:?}, inserted {want:?}"));
+                            fail(s, sig, format!("flags {} / {} files: path {ps:?}: resolve_path returned {g:?}, inserted {want:?}", st.flags, st.files.len()));
+                        }
+                        // every lookup flavour agrees with a linear scan: path table entry -> the VFS entry
+                        // AT that offset -> the container entry AT the span's offset (read_entry_at)
+                        let scan = p.path_table.files.iter().find(|f| f.path == ps).and_then(|f| {
+                            let v = cascette_formats::tvfs::VfsTable::read_entry_at(&p.vfs_table.data, f.vfs_offset as usize, &p.header).ok()?;
+                            let sp = v.spans.first()?;
+                            p.container_table.get_entry_at_offset(sp.cft_offset, &p.header).ok()
+                        });
+                        let sc = scan.as_ref().map(|e| (e.ekey.clone(), e.encoded_size, e.content_key.clone(), e.est_index, e.patch_offset));
+                        if sc != g && !st.long_name {
+                            fail(s, "tvfs-lookup-vs-offsets", format!("flags {} / {} files: path {ps:?}: resolve_path (entry lists) returned {g:?}, reading the VFS/CFT blobs at the stored offsets gives {sc:?}", st.flags, st.files.len()));
                         }
                     }
-                    Some(got.map(|e| format!("{} {} {}", hex(&e.ekey), e.encoded_size, e.content_key.as_ref().map(|c| hex(c)).unwrap_or("-".into()))).unwrap_or("none".into()))
+                    let num = |x: Option<u32>| x.map(|v| v.to_string()).unwrap_or("-".into());
+                    Some(got.map(|e| format!("{} {} {} {} {}", hex(&e.ekey), e.encoded_size, e.content_key.as_ref().map(|c| hex(c)).unwrap_or("-".into()), num(e.est_index), num(e.patch_offset))).unwrap_or("none".into()))
                 }
                 _ => None,
             },
@@ -1443,14 +1514,44 @@ fn name(rng: &mut Rng, len: usize) -> Vec<u8> {
     v
 }
 
-fn case_tvfs(im: &mut Impl, s: &mut Session, rng: &mut Rng, nfiles: usize, long: Option<usize>) {
-    let flags = if rng.chance(1, 4) { 0 } else { 1 };
+/// `flags`: TvfsBuilder flag combination (INCLUDE_CKEY 1 | ENCODING_SPEC 2 | PATCH_SUPPORT 4);
+/// `est`: 0 = no spec strings, 1 = a short EST (< 256 bytes), 2 = an EST of 256..~600 bytes (2-byte EST
+/// offsets), 3 = an EST just below / at / above the 255-byte width boundary; `flat`: all files in one
+/// directory with short names (cheap for the 64 KiB container-table boundary).
+fn case_tvfs(im: &mut Impl, s: &mut Session, rng: &mut Rng, flags: u32, est: u8, nfiles: usize, long: Option<usize>, flat: bool) {
     im.exec(s, &format!("begin tvfs {flags}"));
+    // encoding-spec strings (the builder ignores them without ENCODING_SPEC — also exercised)
+    let spec_pool = ["z", "n", "b:{*=z}", "b:{256K*=z}", "b:{16K*=z,4M=n}", "e:{237DA26C65073F42,6FA0420E,z}"];
+    let mut specs: Vec<String> = vec![];
+    match est {
+        0 => {}
+        1 => { for _ in 0..rng.range(1, 6) { specs.push(rng.pick(&spec_pool).to_string()); } }
+        2 => { let mut len = 0; let target = rng.range(256, 600) as usize; while len < target { let sp = format!("b:{{{}K*=z}}", rng.range(1, 4096)); len += sp.len() + 1; specs.push(sp); } }
+        _ => {
+            // total EST size (strings + NULs) exactly 254 / 255 / 256 / 257 bytes
+            let target = 254 + rng.below(4) as usize;
+            let mut len = 0;
+            while target - len > 40 { let sp = format!("b:{{{}K*=z}}", rng.range(100, 999)); len += sp.len() + 1; specs.push(sp); }
+            specs.push("z".repeat(target - len - 1));
+        }
+    }
+    for sp in &specs {
+        im.exec(s, &format!("s {}", hex(sp.as_bytes())));
+    }
     // random directory tree: prefix-free set of paths (a file is never also a directory)
     let mut dirs: Vec<Vec<u8>> = vec![vec![]];
     let mut paths: BTreeSet<Vec<u8>> = BTreeSet::new();
     let mut used_dir_names: BTreeSet<Vec<u8>> = BTreeSet::new();
     let mut guard = 0;
+    if flat {
+        let d = name(rng, 3);
+        while paths.len() < nfiles {
+            let mut p = d.clone();
+            p.push(b'/');
+            p.extend(format!("f{:05}", paths.len()).bytes());
+            paths.insert(p);
+        }
+    }
     while paths.len() < nfiles && guard < nfiles * 20 + 50 {
         guard += 1;
         let d = dirs[rng.below(dirs.len() as u64) as usize].clone();
@@ -1474,11 +1575,20 @@ fn case_tvfs(im: &mut Impl, s: &mut Session, rng: &mut Rng, nfiles: usize, long:
     for i in (1..list.len()).rev() { let j = rng.below(i as u64 + 1) as usize; list.swap(i, j); }
     for p in &list {
         let ck = if rng.chance(1, 8) { "-".to_string() } else { hex(&rng.bytes(16)) };
-        im.exec(s, &format!("t {} {} {} {} {ck}", hex(p), hex(&rng.bytes(9)), rng.range(1, 0xFFFF_FFFF), rng.range(0, 0xFFFF_FFFF)));
+        let head = format!("{} {} {} {} {ck}", hex(p), hex(&rng.bytes(9)), rng.range(1, 0xFFFF_FFFF), rng.range(0, 0xFFFF_FFFF));
+        // with spec strings most files carry an EST index (valid: below the number of strings)
+        if !specs.is_empty() && rng.chance(3, 4) {
+            im.exec(s, &format!("te {head} {}", rng.below(specs.len() as u64)));
+        } else {
+            im.exec(s, &format!("t {head}"));
+        }
     }
-    im.exec(s, "build");
+    let r = im.exec(s, "build");
+    im.exec(s, "specs");
+    let stride = if list.len() > 1500 { 9 } else if list.len() > 400 { 6 } else { 1 };
     for (i, p) in list.iter().enumerate() {
-        if list.len() > 400 && i % 6 != 0 { continue; }
+        // (the last files in path order sit at the largest table offsets: always probed)
+        if i % stride != 0 && i + 8 < list.len() { continue; }
         im.exec(s, &format!("p {}", hex(p)));
         if i % 3 == 0 {
             let mut q = p.clone(); q.push(b'x');
@@ -1487,7 +1597,19 @@ fn case_tvfs(im: &mut Impl, s: &mut Session, rng: &mut Rng, nfiles: usize, long:
             if p.len() > 1 { im.exec(s, &format!("p {}", hex(&p[..p.len() - 1]))); }
         }
     }
-    s.case(Some(&format!("tvfs {flags} {} {:?} {}", list.len(), long, list.first().map(|p| hex(p)).unwrap_or_default())));
+    if stride > 1 {
+        // the files that sort last occupy the highest VFS/CFT offsets
+        let mut sorted = list.clone();
+        sorted.sort();
+        for p in sorted.iter().rev().take(24) { im.exec(s, &format!("p {}", hex(p))); }
+    }
+    s.tally(&format!("tvfs.flags.{flags}"));
+    s.tally(&format!("tvfs.est.{}", ["none", "short", "two-byte-offsets", "at-255-boundary"][est as usize % 4]));
+    if r.starts_with("ok") {
+        s.case(Some(&format!("tvfs {flags} {est} {} {:?} {}", list.len(), long, list.first().map(|p| hex(p)).unwrap_or_default())));
+    } else {
+        s.case(None);
+    }
 }
 
 fn case_res(im: &mut Impl, s: &mut Session, rng: &mut Rng, ver: u32, total: usize, multi: bool) {
@@ -1627,10 +1749,11 @@ fn main() {
     }
     // --- tvfs
     for n in if th { vec![0usize, 1, 2, 11, 12, 13, 40, 200, 2978, 2979, 2980] } else { vec![0usize, 1, 2, 11, 12, 13, 60, 300] } {
-        case_tvfs(&mut im, &mut s, &mut rng, n, None);
+        let flags = if rng.chance(1, 4) { 0 } else { 1 };
+        case_tvfs(&mut im, &mut s, &mut rng, flags, 0, n, None, false);
     }
     for l in [255usize, 256, 300, 510] {
-        case_tvfs(&mut im, &mut s, &mut rng, 3, Some(l));
+        case_tvfs(&mut im, &mut s, &mut rng, 1, 0, 3, Some(l), false);
     }
     // --- resolver chain
     for ver in 1..=4u32 {
